@@ -858,3 +858,33 @@ func (c *Chain) AdvanceSlots(ctx context.Context, slot uint64) *Mismatch {
 }
 
 func hfn() tree.HashFn { return tree.GetHashFn() }
+
+// Sibling makes a second chain from the current point: a copy of the reference state, a CopyState of the
+// zrnt state with a Clone of the context (so both lineages share one pubkey cache, as chains sharing
+// a node do), and its own view of the deposit contract.
+func (c *Chain) Sibling() (*Chain, error) {
+	zs := *c.ZSpec
+	s := &Chain{ZSpec: &zs, Sp: c.Sp, Keys: c.Keys, Rng: c.Rng, KeyOf: map[[48]byte]int{}, includedAtt: map[[2]uint64]bool{}, NextKey: c.NextKey, BlockNumber: c.BlockNumber}
+	for k, v := range c.KeyOf {
+		s.KeyOf[k] = v
+	}
+	for k, v := range c.includedAtt {
+		s.includedAtt[k] = v
+	}
+	s.Ref = c.Ref.Copy()
+	s.DC = &DepositContract{sp: c.Sp, Leaves: append([]refspec.DepositData{}, c.DC.Leaves...), roots: append([]refspec.Root{}, c.DC.roots...)}
+	s.Eng = &ScriptedEngine{Spec: s.ZSpec}
+	s.ZSpec.ExecutionEngine = s.Eng
+	cp, err := c.Z.BeaconState.CopyState()
+	if err != nil {
+		return nil, err
+	}
+	s.Z = &beacon.StandardUpgradeableBeaconState{BeaconState: cp}
+	s.Epc = c.Epc.Clone()
+	if c.voteEth1 != nil {
+		v := *c.voteEth1
+		s.voteEth1 = &v
+		s.votePeriod = c.votePeriod
+	}
+	return s, nil
+}
